@@ -11,6 +11,7 @@ import (
 	"encoding/json"
 	"fmt"
 	"math/big"
+	"sort"
 	"strings"
 
 	"github.com/holiman/uint256"
@@ -45,7 +46,7 @@ func (c *c09) Meta() engine.Meta {
 		LevelName:        "1 = single mutation / single hostile field, 2 = pairs of hostile fields",
 		DeathIsViolation: true,
 		Technique:        "bounded-exhaustive enumeration of an input grammar against the real application at several states; oracle = no panic + liveness probe",
-		Rule: "inputs: (a) every byte string of length <= 2; (b) for a valid signed encoding of each of 10 base transactions (all 8 types, contract deploy and call, transfer to a contract): every prefix, every single-bit flip, every byte replaced by 00/7f/80/ff; (c) valid envelopes, RE-SIGNED by the sender, with every value of a per-field hostile menu (unknown / empty / 19 / 21 / 33 / 64-byte addresses, amounts 0 / 2^255 / 2^256-1, gas 0 / 2^63 / 2^64-1, prices, nonce 2^64-1, type 0 / 9 / -1 / 2^31-1, nil payload, payload of another type, 0 / 31 / 33-byte hashes, heights 0 / -1 / 2^63-1 / overflowing sums, option documents that are not JSON / deeply nested / wrong types / negative / huge numbers, empty option list, choice -1 / 2^31-1, 10 kB strings and code) — all single fields and all ordered pairs (thorough also at the fresh state, plus every pair of byte positions of each valid encoding replaced by 00/ff); (d) Query: 12 paths x 11 data shapes x 8 heights. " +
+		Rule: "inputs: (a) every byte string of length <= 2; (b) for a valid signed encoding of each of 10 base transactions (all 8 types, contract deploy and call, transfer to a contract): every prefix, every single-bit flip, every byte replaced by 00/7f/80/ff; (c) valid envelopes, RE-SIGNED by the sender, with every value of a per-field hostile menu (unknown / empty / 19 / 21 / 33 / 64-byte addresses, amounts 0 / 2^255 / 2^256-1, gas 0 / 2^63 / 2^64-1, prices, nonce 2^64-1, type 0 / 9 / -1 / 2^31-1, nil payload, payload of another type, 0 / 31 / 33-byte hashes, heights 0 / -1 / 2^63-1 / overflowing sums, option documents that are not JSON / deeply nested / wrong types / negative / huge numbers, empty option list, choice -1 / 2^31-1, 10 kB strings and code) — all single fields and all ordered pairs (thorough also at the fresh state, plus every pair of byte positions of each valid encoding replaced by 00/ff); (d) Query: 12 paths x 11 data shapes x 8 heights, plus vm_call with well-formed (from,to) over 3 senders x 14 targets (creation, EOA, unknown, two contracts, the nine precompiles) x 5 payloads x 7 heights. " +
 			"Delivered through CheckTx and, inside a block, through DeliverTx, at a fresh chain (after 2 blocks) and after 4 blocks of the dense history. vm_call runs with the RPC environment Tendermint installs in production (stub block store). " +
 			"Oracle: every call returns (a recovered panic or a dead worker process is a violation); after each batch the open block ends and commits, and a well-formed transfer in a following block succeeds. " +
 			"evaluations = input shards, counters.inputs = individual inputs; distinct_nontrivial = shards in which at least one input was ACCEPTED (code 0) and one rejected.",
@@ -286,6 +287,28 @@ func (c *c09) inputs(cs c09Case) []c09Input {
 		u0 := sim.W("U0").Addr
 		datas := [][]byte{nil, {}, {1}, make([]byte, 19), u0, make([]byte, 21), make([]byte, 32), make([]byte, 39), append(append([]byte{}, u0...), make([]byte, 20)...), make([]byte, 41), make([]byte, 1000)}
 		heights := []int64{-1 << 63, -1, 0, 1, 2, 1000000, 1<<63 - 1, -2}
+		// vm_call with well-formed (from,to) and hostile targets / call data: the EVM runs inside the query
+		targets := map[string][]byte{"zero(create)": make([]byte, 20), "EOA": sim.W("U1").Addr, "unknown": sim.W("nobody-has-this").Addr,
+			"contract0": sim.CreateAddress("U0", 0), "contract1": sim.CreateAddress("W", 0)}
+		for i := 1; i <= 9; i++ {
+			targets[fmt.Sprintf("precompile%d", i)] = append(make([]byte, 19), byte(i))
+		}
+		var tnames []string
+		for k := range targets {
+			tnames = append(tnames, k)
+		}
+		sort.Strings(tnames)
+		payloads := [][]byte{nil, {0xde, 0xad, 0xbe, 0xef}, make([]byte, 1024), []byte(strings.Repeat("\xff", 4096)), hx2("6000600060006000600073" + strings.Repeat("00", 20) + "5af1")}
+		for _, from := range [][]byte{u0, sim.W("nobody-has-this").Addr, make([]byte, 20)} {
+			for _, tn := range tnames {
+				for pi, pl := range payloads {
+					for _, h := range []int64{0, 1, 2, 3, 4, 1000000, -1} {
+						d := append(append(append([]byte{}, from...), targets[tn]...), pl...)
+						in = append(in, c09Input{Tag: fmt.Sprintf("query vm_call from %X to %s payload#%d(%d bytes) height %d", from[:3], tn, pi, len(pl), h), QPath: "vm_call", QData: d, QHeight: h})
+					}
+				}
+			}
+		}
 		for _, p := range paths {
 			for di, d := range datas {
 				for _, h := range heights {
